@@ -6,12 +6,11 @@ import F1Verif.Generated.Facts
 import F1Verif.Expected
 namespace F1.Props.FactsC07
 
--- (t_Fail, t_FailNow, t_Reset, t_Failed: re-proved semantically on the regenerated MiniGo programs, see Props/Refine*.lean)
+-- (t_Fail, t_FailNow, t_Reset, t_Failed, active_Run: re-proved semantically on the regenerated MiniGo programs, see Props/Refine*.lean)
 
 theorem fact_t_handlePanic : F1.Generated.skel_t_handlePanic = F1.Expected.skel_t_handlePanic := by rfl
 theorem fact_t_CheckResults : F1.Generated.skel_t_CheckResults = F1.Expected.skel_t_CheckResults := by rfl
 theorem fact_t_teardown : F1.Generated.skel_t_teardown = F1.Expected.skel_t_teardown := by rfl
-theorem fact_active_Run : F1.Generated.skel_active_Run = F1.Expected.skel_active_Run := by rfl
 theorem fact_manager_makeIterationStatePool : F1.Generated.skel_manager_makeIterationStatePool = F1.Expected.skel_manager_makeIterationStatePool := by rfl
 theorem fact_t_Errorf : F1.Generated.skel_t_Errorf = F1.Expected.skel_t_Errorf := by rfl
 theorem fact_t_Error : F1.Generated.skel_t_Error = F1.Expected.skel_t_Error := by rfl
